@@ -1,4 +1,6 @@
 import Esp.Model.Reconnect
+import Esp.Lemmas.ReconnectLock
+import Esp.Lemmas.ReconnectStop
 /-!
 # C18 — reconnect manager: one attempt at a time, specified backoff, clean stop
 -/
@@ -50,5 +52,142 @@ theorem backoff_le (n : Nat) : backoff n ≤ 60 := by rw [c18_backoff]; omega
 
 /-- authentication / encryption errors: the count jumps to 100, i.e. the maximum delay -/
 theorem c18_backoff_auth : backoff maxTries = 60 := by decide
+
+/-! ## one attempt at a time -/
+
+/-- **C18 (one attempt).**  In every state reachable by ANY sequence of events — start/stop calls, attempt
+completions, session endings, mDNS records, timers, single ready handles in any interleaving — at most one
+task is inside `client.start_connection` / `client.finish_connection`, and that task holds the manager's lock. -/
+theorem c18_one_attempt (named : Bool) (evs : List Ev) :
+    let s := run (init named) evs
+    (∀ (i j : Nat) (ti tj : Task), s.tasks[i]? = some ti → s.tasks[j]? = some tj →
+        inflightPc ti.pc = true → inflightPc tj.pc = true → i = j) ∧
+    (∀ (i : Nat) (t : Task), s.tasks[i]? = some t → inflightPc t.pc = true → s.locked = true) :=
+  let h := run_inv (init named) evs (init_inv named)
+  ⟨h.b, h.a⟩
+
+/-- the same as a count -/
+theorem c18_one_attempt_count (named : Bool) (evs : List Ev) :
+    ((run (init named) evs).tasks.filter (fun t => inflightPc t.pc)).length ≤ 1 := by
+  have h := (c18_one_attempt named evs).1
+  generalize (run (init named) evs).tasks = l at h
+  -- two elements of the filtered list would be two distinct indices
+  rcases hf : l.filter (fun t => inflightPc t.pc) with _ | ⟨a, _ | ⟨b, rest⟩⟩
+  · simp [hf]
+  · simp [hf]
+  · exfalso
+    have hsub : [a, b].Sublist l := by
+      have : [a, b].Sublist (a :: b :: rest) := by simp
+      exact (hf ▸ this).trans List.filter_sublist
+    have ha : inflightPc a.pc = true := by
+      have : a ∈ l.filter (fun t => inflightPc t.pc) := by rw [hf]; simp
+      exact (List.mem_filter.mp this).2
+    have hb : inflightPc b.pc = true := by
+      have : b ∈ l.filter (fun t => inflightPc t.pc) := by rw [hf]; simp
+      exact (List.mem_filter.mp this).2
+    obtain ⟨is, his, hinc⟩ := List.sublist_eq_map_getElem hsub
+    match is, his, hinc with
+    | [i, j], his, hinc =>
+      simp at his hinc
+      have h1 : l[i.val]? = some a := by rw [List.getElem?_eq_getElem i.isLt]; simp [his.1]
+      have h2 : l[j.val]? = some b := by rw [List.getElem?_eq_getElem j.isLt]; simp [his.2]
+      have := h i.val j.val a b h1 h2 ha hb
+      have hlt : i < j := hinc
+      omega
+
+/-! ## clean stop -/
+
+/-- **C18 (clean stop).**  Take any reachable state in which the manager is stopped and no earlier `start()` call is
+still waiting for the lock (i.e. `stop()` has returned and `start()` has not been called since).  Then for EVERY
+continuation without a new `start()` — attempt completions, session endings, mDNS records, timers, ready handles —
+the manager stays stopped, no attempt is in flight, no retry timer is armed, it does not listen to mDNS, and
+nothing noisy (a connection attempt, a listener registration, a timer) is ever logged again. -/
+theorem c18_stop_final (named : Bool) (pre post : List Ev)
+    (hs : (run (init named) pre).stopped = true) (hn : NoPendingStart (run (init named) pre))
+    (hp : ∀ e ∈ post, e ≠ .callStart) :
+    let s := run (init named) pre
+    let s' := run s post
+    s'.stopped = true ∧ NoInflight s' ∧ s'.timer = none ∧ s'.zcListening = false ∧
+      s'.log.filter noisy = s.log.filter noisy := by
+  have g := run_G (init named) pre (init_G named)
+  obtain ⟨f, l⟩ := run_F _ post hp g.lock ⟨hs, g.stop hs, hn⟩
+  exact ⟨f.stopped, f.quiet.n, f.quiet.t, f.quiet.z, l⟩
+
+/-- in EVERY reachable state: stopped ⇒ nothing in flight, no timer, not listening (also while `start()` calls are pending) -/
+theorem c18_stopped_quiet (named : Bool) (evs : List Ev) (hs : (run (init named) evs).stopped = true) :
+    let s := run (init named) evs
+    NoInflight s ∧ s.timer = none ∧ s.zcListening = false :=
+  let q := (run_G (init named) evs (init_G named)).stop hs
+  ⟨q.n, q.t, q.z⟩
+
+/-- the hypotheses of `c18_stop_final` are met after start, a failed attempt and stop; and they matter: a retry timer
+and the listener were active before -/
+example :
+    let s := run (init true) [.callStart, .pop, .startDone (.fail .other), .pop]
+    let s' := run s [.callStop, .pop]
+    s.timer = some 2 ∧ s.zcListening = true ∧ s'.stopped = true ∧ (s'.tasks.all fun t => t.kind ≠ .startCall ∨ t.pc = .done) = true := by
+  decide
+
+/-! ## mDNS -/
+
+/-- **C18 (mDNS gate).**  In every reachable state an mDNS record has NO effect while handshaking or connected, while
+stopped, or when it does not match the device; a matching record seen while the manager listens and waits stops
+listening and starts an attempt at once (`scheduleConnect 0`). -/
+theorem c18_zc_gate (named : Bool) (evs : List Ev) (m : Bool) :
+    let s := run (init named) evs
+    ((s.state = .handshaking ∨ s.state = .ready) → step s (.zc m) = s) ∧
+    (s.stopped = true → step s (.zc m) = s) ∧
+    step s (.zc false) = s ∧
+    (s.zcListening = true → s.accept = true → s.stopped = false →
+      step s (.zc true) = { scheduleConnect (stopZc s) 0 with accept := false }) := by
+  have g := run_G (init named) evs (init_G named)
+  refine ⟨?_, ?_, ?_, ?_⟩
+  · intro hst
+    have : (run (init named) evs).accept = false := by
+      cases ha : (run (init named) evs).accept
+      · rfl
+      · rcases g.acc ha with h | h <;> rcases hst with h' | h' <;> rw [h] at h' <;> cases h'
+    simp [step, this]
+  · intro h; simp [step, h]
+  · simp [step]
+  · intro h1 h2 h3; simp [step, h1, h2, h3]
+
+/-! ## the delays -/
+
+/-- **C18 (retry delay).**  A failed attempt arms the retry timer `backoff n` seconds ahead, `n` = the failure count
+after this failure (100 after an authentication / encryption error), and starts listening to mDNS. -/
+theorem c18_retry_delay (s : St) (tid : Nat) (k : ErrK) :
+    let n := if k = .auth then maxTries else s.tries + 1
+    let s' := afterFail (handleFailure s k) tid
+    s'.timer = some (s.now + backoff n) ∧ s'.tries = n ∧ Act.arm (backoff n) ∈ s'.log ∧ Act.onConnectError k ∈ s'.log ∧
+      (s.hasName = true → s'.zcListening = true) := by
+  have hb := backoff_pos (if k = .auth then maxTries else s.tries + 1)
+  have hne : backoff (if k = .auth then maxTries else s.tries + 1) ≠ 0 := by omega
+  simp only [afterFail, handleFailure, setState, emit, cancelTimer, finish, setTask, release, wakeUpFirst, startZc, hne,
+    ne_eq, not_false_eq_true, ↓reduceIte]
+  split <;> split <;> simp_all <;> (intro hn; cases hz : s.zcListening <;> simp_all)
+
+/-- **C18 (after a disconnect).**  Handling the end of a session reports it once; when not stopped an expected
+disconnect arms a 5 s cool-down and an unexpected one starts the next attempt at once. -/
+theorem c18_disconnect_delay (s : St) (tid : Nat) (expected : Bool) :
+    let s1 := finish (release (emit (setState s .disconnected) (.onDisconnect expected))) tid
+    discLocked s tid expected =
+      if s.stopped then s1 else if expected then scheduleConnect s1 cooldown else callConnectOnce s1 := by
+  simp only [discLocked, stopped_finish, stopped_release, stopped_emit, stopped_setState]
+  cases s.stopped <;> cases expected <;> simp [scheduleConnect, cooldown]
+
+/-! ## alternation of on_connect / on_disconnect -/
+
+def cbs (s : St) : List Act := s.log.filter fun a => a = .onConnect ∨ a = .onDisconnect true ∨ a = .onDisconnect false
+
+/-- **C18 (alternation) does NOT hold in general — witness.**  `stop()` during a live session, `start()`, and the old
+session ending before the new connect task takes the lock: the new session's `on_connect` is reported before the old
+session's `on_disconnect`.  Replayed on the implementation (known finding, findings/C18-*.json). -/
+theorem c18_alternate_witness :
+    cbs (run (init true) [.callStart, .pop, .startDone .ok, .pop, .finishDone .ok, .pop,   -- session 1
+                          .callStop, .callStart, .sessionEnd false,                          -- stop, start, session 1 ends
+                          .pop, .startDone .ok, .pop, .finishDone .ok, .pop, .pop]) =         -- session 2, then the late report
+      [.onConnect, .onConnect, .onDisconnect false] := by
+  decide
 
 end Esp.C18
